@@ -118,13 +118,25 @@ CONTAINERS = {'seq': ser.SerializableBaseTypes.seq_t, 'map': ser.SerializableBas
               'bytes': ser.SerializableBaseTypes.bytes_t}
 
 
-def l141(kind, maxit):
+def l141(kind, maxit, lowlimit=False):
     """reader `kind` on: [length encoding (arbitrary int of any width)] ++ opaque rest of symbolic
     length.  Elements are read by the real deserialize_value; to keep the unrolling finite every
     element is a null (2 bytes) or the stream ends: the claim is about the *loop*, whose trip count
     must be bounded by the bytes actually present, not by the declared length."""
     declared = symint('declared_len', -2 ** 40, 2 ** 40)
     present = symint('elements_present', 0, maxit)
+    saved_limits = (ser.MAX_ARRAY_LENGTH, ser.MAX_BYTES_LENGTH)
+    if lowlimit:
+        # the limits are module constants read at run time: lowered so that a declared length can exceed the limit while
+        # that many elements / bytes are really present (otherwise an over-limit length always runs into the end of input)
+        ser.MAX_ARRAY_LENGTH, ser.MAX_BYTES_LENGTH = maxit - 1, 4
+    try:
+        _l141_body(kind, maxit, declared, present)
+    finally:
+        ser.MAX_ARRAY_LENGTH, ser.MAX_BYTES_LENGTH = saved_limits
+
+
+def _l141_body(kind, maxit, declared, present):
     lenenc = BytesIO()
     try:
         ser.serialize_int(lenenc, declared)
@@ -180,7 +192,7 @@ def replay_l141(cfg, m):
     except Exception:
         return False, 'length not encodable'
     present = m.get('elements_present', 0)
-    body = {'seq': b'\x00\x0f' * present, 'set': b'\x00\x0f' * present, 'map': b'\x00\x0f\x00\x0f' * present}.get(kind, bytes(m.get('content_len', 0)))
+    body = {'seq': b'\x00\x0f' * present, 'set': b'\x00\x0f' * present, 'map': b'\x00\x0f\x00\x0f' * present}.get(kind, bytes(min(m.get('content_len', 0), 1 << 21)))
     st = io.BytesIO(st0.getvalue() + body)
     calls = [0]
 
@@ -194,21 +206,30 @@ def replay_l141(cfg, m):
             if calls[0] > 200000:
                 raise Hang()
     hung = False
+    ok = False
+    saved_limits = (s.MAX_ARRAY_LENGTH, s.MAX_BYTES_LENGTH)
+    if cfg.get('lowlimit'):
+        s.MAX_ARRAY_LENGTH, s.MAX_BYTES_LENGTH = cfg['maxit'] - 1, 4
+    limit = s.MAX_ARRAY_LENGTH if kind in ('seq', 'map', 'set') else s.MAX_BYTES_LENGTH
     sys.setprofile(tracer)
     try:
         try:
             s.deserialize_types[{'seq': 16, 'map': 17, 'set': 18, 'string': 13, 'bytes': 14}[kind]](st)
+            ok = True
         except Exception:
             pass
         except Hang:
             hung = True
     finally:
         sys.setprofile(None)
-    return hung or calls[0] > 60 * present + 200, 'calls=%s present=%d declared=%d content=%d bytes' % (
-        '>200000 (does not terminate)' if hung else calls[0], present, m.get('declared_len', 0), m.get('content_len', 0))
+        s.MAX_ARRAY_LENGTH, s.MAX_BYTES_LENGTH = saved_limits
+    declared = m.get('declared_len', 0)
+    over = ok and declared > limit
+    return hung or over or calls[0] > 60 * present + 200, 'calls=%s present=%d declared=%d (limit %d) content=%d bytes decoded=%s' % (
+        '>200000 (does not terminate)' if hung else calls[0], present, declared, limit, m.get('content_len', 0), ok)
 
 
-R.add('L14.1', l141, lambda tier: [dict(kind=k, maxit=(3 if tier == 'quick' else 6)) for k in CONTAINERS],
+R.add('L14.1', l141, lambda tier: [dict(kind=k, maxit=(3 if tier == 'quick' else 6)) for k in CONTAINERS] + [dict(kind=k, maxit=3, lowlimit=True) for k in CONTAINERS],
       replay=replay_l141, desc='container readers: loop count and reads bounded by bytes present, declared lengths capped',
       expect=['loop count bounded by the elements present, not the declared length', 'position stays inside the stream',
               'declared length above the limit is refused'],
